@@ -93,6 +93,16 @@ Theorem C05_barcode_is_a_partition : forall p, prime p -> forall n D R,
 Proof. exact barcode_partition. Qed.
 Print Assumptions C05_barcode_is_a_partition.
 
+(* the same for the executable oracle shared by every persistence property (certified_lows): on an input that passes the
+   verified chain-complex test, an entry Some b at index j forces None at index b, and no other index holds Some b *)
+Theorem C05_certified_pairs_disjoint : forall p, prime p -> forall D l,
+  check_chain_complex p (length D) D = true -> certified_lows p D = Some l ->
+  forall j b, (j < length D)%nat -> nth j l None = Some b ->
+    (b < length D)%nat /\ nth b l None = None /\
+    forall j', (j' < length D)%nat -> nth j' l None = Some b -> j' = j.
+Proof. exact certified_pairs_disjoint. Qed.
+Print Assumptions C05_certified_pairs_disjoint.
+
 (* non-vacuity: the boundary matrix of a filled triangle over Z_3 is a chain complex, and its certified pairing pairs
    the cells 1, 2, 5 (births) with 3, 4, 6 (deaths): no cell on both sides, cell 0 essential *)
 Definition C05_triangle : dmat :=
